@@ -450,9 +450,42 @@ pub fn c01_corpus() -> Vec<(ASchema, ADoc)> {
     ]
 }
 
-/// class of the known finding a (schema, document) falls into, if any
-pub fn c01_finding_class(s: &ASchema, doc: &ADoc) -> Option<&'static str> {
-    fn walk(s: &ASchema, doc: &ADoc, parent: &str, sels: &[ASel], found: &mut Option<&'static str>) {
+/// response keys collected for runtime type `rt` from the selection set `sels` written on `parent`. At an abstract
+/// `parent` the `__typename` selected by a fragment ON THAT SAME abstract type is not a second reader's key: the
+/// tag is shared with (borrowed by) such a fragment (`C01.E2E.variantspread_lossless`, part (b))
+fn overlap_keys(s: &ASchema, frags: &[AFrag], parent: &str, sels: &[ASel], rt: &str, out: &mut Vec<String>, depth: usize) {
+    if depth > 12 {
+        return;
+    }
+    for sel in sels {
+        match sel {
+            ASel::Typename => out.push("__typename".into()),
+            ASel::Field { alias, name, .. } => out.push(alias.clone().unwrap_or_else(|| name.clone())),
+            ASel::Inline { on, sub } => {
+                if s.possible_types(on).iter().any(|p| p == rt) {
+                    overlap_keys(s, frags, on, sub, rt, out, depth + 1)
+                }
+            }
+            ASel::Spread { name } => {
+                if let Some(f) = frags.iter().find(|f| &f.name == name) {
+                    if s.possible_types(&f.on).iter().any(|p| p == rt) {
+                        let mut inner = Vec::new();
+                        overlap_keys(s, frags, &f.on, &f.sels, rt, &mut inner, depth + 1);
+                        if s.is_abstract(parent) && f.on == parent {
+                            inner.retain(|k| k != "__typename");
+                        }
+                        out.extend(inner);
+                    }
+                }
+            }
+        }
+    }
+}
+
+/// class of the known finding the OPERATION `op` of a (schema, document) falls into, if any: only the operation's own
+/// selection sets and the fragments it reaches count (a shape in another operation or in an unused fragment explains nothing)
+pub fn c01_finding_class_op(s: &ASchema, doc: &ADoc, op: Option<&AOp>) -> Option<&'static str> {
+    fn walk(s: &ASchema, doc: &ADoc, parent: &str, sels: &[ASel], found: &mut Option<&'static str>, seen: &mut Vec<String>) {
         // dropped selections: condition on an abstract type under an object parent
         for sel in sels {
             let cond = match sel {
@@ -469,7 +502,7 @@ pub fn c01_finding_class(s: &ASchema, doc: &ADoc) -> Option<&'static str> {
         // overlapping keys for some runtime type
         for rt in s.possible_types(parent) {
             let mut keys = Vec::new();
-            keys_of(s, &doc.frags, sels, Some(&rt), &mut keys, 0);
+            overlap_keys(s, &doc.frags, parent, sels, &rt, &mut keys, 0);
             let mut sorted = keys.clone();
             sorted.sort();
             sorted.dedup();
@@ -483,28 +516,40 @@ pub fn c01_finding_class(s: &ASchema, doc: &ADoc) -> Option<&'static str> {
                 ASel::Field { name, sub, .. } => {
                     if let Some(f) = fields.iter().find(|f| &f.name == name) {
                         if s.is_composite(f.ty.base()) {
-                            walk(s, doc, f.ty.base(), sub, found);
+                            walk(s, doc, f.ty.base(), sub, found, seen);
                         }
                     }
                 }
-                ASel::Inline { on, sub } => walk(s, doc, on, sub, found),
+                ASel::Inline { on, sub } => walk(s, doc, on, sub, found, seen),
+                ASel::Spread { name } => {
+                    // the body of a reached fragment, once
+                    if !seen.contains(name) {
+                        seen.push(name.clone());
+                        if let Some(f) = doc.frag(name) {
+                            let (on, fs) = (f.on.clone(), f.sels.clone());
+                            walk(s, doc, &on, &fs, found, seen);
+                        }
+                    }
+                }
                 _ => {}
             }
         }
     }
     let mut found = None;
-    for op in &doc.ops {
+    let mut seen = Vec::new();
+    let ops: Vec<&AOp> = match op {
+        Some(o) => vec![o],
+        None => doc.ops.iter().collect(),
+    };
+    for op in ops {
         let root = match op.kind {
             "query" => s.query.clone(),
             "mutation" => s.mutation.clone(),
             _ => s.subscription.clone(),
         };
         if let Some(r) = root {
-            walk(s, doc, &r, &op.sels, &mut found);
+            walk(s, doc, &r, &op.sels, &mut found, &mut seen);
         }
-    }
-    for f in &doc.frags {
-        walk(s, doc, &f.on, &f.sels, &mut found);
     }
     found
 }
